@@ -752,7 +752,9 @@ def on_typed_dict(instance: Instance, ctx: Context) -> JSONObjectSchema:
         for k, v in instance.origin_type.__annotations__.items()
     }
     all_keys = list(annotations.keys())
-    required_keys = getattr(instance.type, "__required_keys__", all_keys)
+    required_keys = getattr(
+        instance.origin_type, "__required_keys__", all_keys
+    )
     return JSONObjectSchema(
         properties={
             key: get_schema(instance.derive(type=annotations[key]), ctx)
